@@ -51,7 +51,7 @@ pub fn body_of(op: &ClientOp) -> Value {
                 }
                 "textDocument/formatting" => {
                     // options derived from the (otherwise unused) position so that they vary
-                    let tab = 1 + (*character % 8);
+                    let tab = *character % 9; // 0..8: zero is a legal uinteger
                     json!({"textDocument":td,"options":{"tabSize":tab,"insertSpaces":line % 2 == 0}})
                 }
                 "textDocument/references" => {
